@@ -83,6 +83,20 @@ def check_sampler(res, c):
     p2 = workload.load(p.read())
     for path, a, b in snapshot.diff(Sp, build.norm_module(snapshot.snap_module(p2.modules[1], "project"), "after"))[:3]:
         res.violation(f"C16:project:{snapshot.field_key(path)}", f"{path}: before {a}, after {b}", desc)
+    # second round on the LOADED instrument: edit it in place (samples, envelopes, map, embedded effect) and save again
+    from . import c06
+    import random as _random
+    applied = c06.mutate_live(s2, _random.Random(c.seed * 104729 + c.index), 10, prefer=("/effect/", "/samples/", "_envelope"))
+    if applied:
+        res.count("resave_after_edit")
+        S_new = build.norm(snapshot.snap_synth(s2), "before")
+        try:
+            s3 = workload.load(s2.read())
+        except Exception as e:
+            res.violation(f"C16:resave-raises:{workload.exc_key(e)}", f"saving the loaded sampler again after in-place edits {applied[:3]} failed: {e!r}", desc)
+            return
+        for path, a, b in snapshot.diff(S_new, build.norm(snapshot.snap_synth(s3), "after"))[:3]:
+            res.violation(f"C16:resave-stale:{snapshot.field_key(path)}", f"after in-place edits {applied[:4]} of the loaded sampler, {path}: object {a}, file {b}", desc)
 
 
 # ------------------------------------------------------------------ legacy variants
